@@ -487,7 +487,8 @@ def enum_rules(ctx, item):
         labs = item.alts[int(dalt)][1]
         pn1, pv1, pn2, pv2 = item.hp(n1), item.hp(v1), item.hp(n2), item.hp(v2)
         evp, evok = item.vis_path(valt)
-        det = 'repr %s; variants over %s %s; name %s value %s (%s); default alt %s; vis %s' % (pr[0], base[-40:], chain, pn1[0], pv1[0], pv1[3], labs[0][:90], evp)
+        edsrc = show(item.reps[int(drep)][1][0])
+        det = 'repr %s; variants over %s %s; name %s value %s (%s); default alt %s; vis %s; doc %s' % (pr[0], base[-40:], chain, pn1[0], pv1[0], pv1[3], labs[0][:90], evp, edsrc[:70])
         cast = c1 or c2
         # the marker test written as `default_index == Some(idx)` instead of `default_index.is_some_and(|i| i == idx)`
         direct_marker = False
@@ -507,7 +508,8 @@ def enum_rules(ctx, item):
             direct_marker = False
         ok = (pr[0] is not None and pr[0].endswith('.type_') and 'sa_type_to_syn_type' in pr[1] and base.endswith('.fields') and chain == ['iter', 'enumerate', 'map'] and r[2] == ',' and
               pn1[0] == pn2[0] and pv1[0] == pv2[0] and pn1[0] is not None and pv1[0] is not None and pn1[0].endswith('.1.0') and pv1[0].endswith('.1.1') and
-              ('is_some_and' in labs[0] or direct_marker) and labs[0].endswith('=True') and evok and evp == 'definition.visibility')
+              ('is_some_and' in labs[0] or direct_marker) and labs[0].endswith('=True') and evok and evp == 'definition.visibility' and
+              re.search(r'lines\(.*(unwrap_Enum\(.*resolved.*\)\.doc|\bed\.doc|enum_definition\.doc)', edsrc) is not None)
         # default marker: default_index == enumerate index
         dlab = labs[0]
         okd = False
@@ -528,7 +530,7 @@ def enum_rules(ctx, item):
             det += ' derives %s' % got
         ctx.ob(['C17', 'C13', 'C08'], 'R-TMPL', 'enum|derives', okdv, 'enum derives: the fixed comparison traits plus Copy/Clone/Default iff copyable/cloneable/defaultable', where)
     ctx.ob(['C08', 'C02', 'C17', 'C14'], 'R-TMPL', 'enum|shape', ok,
-           '#[repr(<resolved base type>)] enum <item name> { one variant per (name, value) pair in order, each `Name = value` }: %s' % det, where)
+           '<the enum\'s own docs> #[repr(<resolved base type>)] enum <item name> { one variant per (name, value) pair in order, each `Name = value` }: %s' % det, where)
     # F13: value-changing cast on the interpolated discriminant
     ctx.ob(['C08'], 'R-TMPL', 'enum|no-lossy-discriminant-cast', ok and not cast,
            'the discriminant is interpolated as an isize literal; an `as _` applied to it truncates silently when the value does not fit the base type' +
